@@ -271,33 +271,6 @@ func c03Exec(k c03Case) *c03Outcome {
 		defer line.stop()
 		w.Net.Plan = c03Plan(k, w.AllKeys(), line, &closeReturned, &closeAt, &faultHit, &armed)
 	}
-	if k.UDP && k.Fault.Kind == "idle" {
-		// The server's event loop looks at its clean-up ticker only between two reads of the socket, and a
-		// read waits up to readOneSegmentTimeout (60–120 s). On a server with other traffic the loop keeps
-		// turning; here a stranger's undecodable datagram every second stands in for that traffic (it
-		// cannot be opened with any key, so it touches no session).
-		stop := make(chan struct{})
-		defer close(stop)
-		go func() {
-			junk := make([]byte, 100)
-			from := &net.UDPAddr{IP: net.IPv4(10, 77, 0, 9), Port: 40000}
-			for i := 0; ; i++ {
-				select {
-				case <-stop:
-					return
-				case <-time.After(time.Second):
-				}
-				for j := range junk {
-					junk[j] = byte(i*31 + j*7 + 1)
-				}
-				for _, port := range []int{8964} {
-					if ep := w.Net.Endpoint(port); ep != nil {
-						ep.InjectFrom(junk, from)
-					}
-				}
-			}
-		}()
-	}
 	if !k.UDP {
 		o.tap = newC03StreamTap(w.Net.T0(), !k.ServerCloses, k.Fault.Kind == "tcp-stall")
 		if k.Fault.Kind == "tcp-reset" {
@@ -508,6 +481,7 @@ type c03Wire struct {
 	// transmitted for the first time after its first transmission and before that close request
 	LostSeq, LostTx, LaterFirstTx int
 	LaterRetxMax                  int   // most transmissions, before the first close request, of one segment first sent after LostSeq
+	LostGapMs                     int64 // first close request emission minus first transmission of LostSeq
 	ReaderIdleMs                  int64 // reader's EOF minus the last datagram handed to its endpoint
 }
 
@@ -660,6 +634,7 @@ func c03AnalyseUDP(k c03Case, o *c03Outcome) *c03Wire {
 	if len(a.LostBefore) > 0 && firstCloseIdx >= 0 {
 		a.LostSeq = a.LostBefore[0]
 		a.LostTx = txBeforeClose[uint32(a.LostSeq)]
+		a.LostGapMs = (ds[firstCloseIdx].At - ds[firstTxIdx[uint32(a.LostSeq)]].At).Milliseconds()
 		for sq, idx := range firstTxIdx {
 			if int(sq) > a.LostSeq && idx > firstTxIdx[uint32(a.LostSeq)] && idx < firstCloseIdx {
 				a.LaterFirstTx++
@@ -795,15 +770,17 @@ func c03Run(c *core.Ctx, k c03Case) {
 					fk = "C03/udp/reader-idle-timeout-clean-eof"
 				}
 				detail = fmt.Sprintf("; no close request or response ever reached the reader's endpoint: its session was closed locally %d ms after the last datagram it was handed (idleSessionTimeout = 60 s → RemoveSession → graceful s.Close()), and Read reported a clean io.EOF", wa.ReaderIdleMs)
-			case k.Fault.Kind == "drop-inflight" && len(wa.LostBefore) > 0 && wa.LostTx <= 1 && (wa.LaterRetxMax >= 3 || wa.LaterFirstTx >= 16+wa.LostSeq+2):
+			case k.Fault.Kind == "drop-inflight" && len(wa.LostBefore) > 0 && wa.LostTx <= 1 && (wa.LaterRetxMax >= 3 || wa.LaterFirstTx >= 16+wa.LostSeq+2 || wa.LostGapMs >= 900):
 				// Only in the dedicated case (fresh session, warmed-up path, the injected loss is the first
 				// one, so the sender is in slow start): (1) the congestion window is minWindowSize + one per
 				// acknowledged segment, so with segment s unacknowledged at most 15 + s later segments can be
 				// transmitted for the first time before s has been retransmitted and acknowledged;
 				// (2) retransmission timers run per segment from its own transmission time: a later segment
-				// cannot time out twice before the earlier, still unacknowledged one has timed out once.
+				// cannot time out twice before the earlier, still unacknowledged one has timed out once;
+				// (3) on this path (round-trip samples well below a millisecond, retransmission timeout of
+				// tens of milliseconds) a segment that stays unacknowledged for 900 ms has timed out.
 				fk = "C03/udp/lost-data-not-retransmitted-while-sending"
-				detail = fmt.Sprintf("; segment %d was lost on its first transmission and never retransmitted before the close request went out, although %d later segments were transmitted for the first time in between (a sender with that segment in its send buffer stalls after at most %d) and one of them %d times (Close() took %v)", wa.LostSeq, wa.LaterFirstTx, 15+wa.LostSeq, wa.LaterRetxMax, o.closeTook.Round(time.Millisecond))
+				detail = fmt.Sprintf("; segment %d was lost on its first transmission and never retransmitted before the close request went out, although %d later segments were transmitted for the first time in between (a sender with that segment in its send buffer stalls after at most %d) and one of them %d times; %d ms passed between its transmission and the close request (Close() took %v)", wa.LostSeq, wa.LaterFirstTx, 15+wa.LostSeq, wa.LaterRetxMax, wa.LostGapMs, o.closeTook.Round(time.Millisecond))
 			case len(wa.LostBefore) > 0:
 				fk = "C03/udp/data-lost-or-overtaken-before-close"
 				detail = fmt.Sprintf("; segments %v of the closing direction were transmitted but had not reached the reader when the close request did", wa.LostBefore)
@@ -917,7 +894,7 @@ func c03Compare(c *core.Ctx, k c03Case, reply string, violated bool, tr string) 
 	if tr == "udp" && len(f) >= 4 {
 		// udp_close_partial: inside both assumptions the model cannot show a partial EOF
 		if violated && f[2] == "1" && f[3] == "1" {
-			c.Disagree("C03/corr/udp-partial-eof-inside-assumptions", "the implementation showed a strict prefix followed by EOF although the replayed history stayed inside both assumptions of udp_close_partial (ordered, patient): "+reply, k)
+			c.Disagree("C03/corr/udp-partial-eof-inside-assumptions", "the implementation showed a strict prefix followed by EOF although the replayed history stayed inside the three assumptions of udp_close_partial (ordered, patient, kept) — contradicts Props/C03.accepted_history_sound: "+reply, k)
 		}
 		if f[2] == "0" {
 			c.Hist("model_assumption_broken", "ordered")
@@ -1068,14 +1045,19 @@ func genC03(r *rand.Rand, thorough bool) []c03Case {
 		}
 	}
 	// (The `idle` plan — tail and every close request lost for ever, the reader's session closed locally
-	// after idleSessionTimeout — is not generated: see docs/notes/C03.md, Round 3, "still open". It can be
-	// replayed by hand with a case JSON whose fault kind is "idle".)
+	// after idleSessionTimeout — is not generated here: it is corpus/C03/thorough/udp-reader-idle-timeout.json,
+	// a known finding that takes 80–190 s and runs in the thorough tier only.)
 	return cases
 }
 
 func c03LoadCorpus(c *core.Ctx) []c03Case {
 	var out []c03Case
 	files, _ := filepath.Glob(filepath.Join(c.Corpus, "*.json"))
+	if c.Thorough() {
+		// replays that take minutes (the idle timeout is a 60 s constant of the code) run in thorough only
+		more, _ := filepath.Glob(filepath.Join(c.Corpus, "thorough", "*.json"))
+		files = append(files, more...)
+	}
 	sort.Strings(files)
 	for _, f := range files {
 		raw, err := os.ReadFile(f)
